@@ -157,6 +157,21 @@ theorem RCR_eq (q : Prob) (px : ℝ) :
     RCR q px = rare px q.pr q.rr (-q.ur) q.gr + rare px q.pl q.rl q.ul q.gl := by
   simp only [RCR, toRCR, rare, epv_tree, epv_leaf]
 
+/-! ### the atom `px`: `X_call px = 0` makes the two one-sided star velocities agree -/
+
+theorem scs_ux (q : Prob) (px : ℝ) (h : SCS q px = 0) :
+    q.ul + -1 * shock px q.pl q.rl 0 q.gl = q.ur + 1 * shock px q.pr q.rr 0 q.gr := by
+  rw [SCS_eq, shock_u px q.pr, shock_u px q.pl] at h; linear_combination -h
+theorem scr_ux (q : Prob) (px : ℝ) (h : SCR q px = 0) :
+    q.ul + -1 * shock px q.pl q.rl 0 q.gl = q.ur + -1 * rare px q.pr q.rr 0 q.gr := by
+  rw [SCR_eq, rare_u px q.pr, shock_u px q.pl] at h; linear_combination h
+theorem rcs_ux (q : Prob) (px : ℝ) (h : RCS q px = 0) :
+    q.ul + 1 * rare px q.pl q.rl 0 q.gl = q.ur + 1 * shock px q.pr q.rr 0 q.gr := by
+  rw [RCS_eq, shock_u px q.pr, rare_u px q.pl] at h; linear_combination -h
+theorem rcr_ux (q : Prob) (px : ℝ) (h : RCR q px = 0) :
+    q.ul + 1 * rare px q.pl q.rl 0 q.gl = q.ur + -1 * rare px q.pr q.rr 0 q.gr := by
+  rw [RCR_eq, rare_u px q.pr, rare_u px q.pl] at h; linear_combination h
+
 /-! ### shock algebra: the mass flux -/
 
 /-- (γ+1) p* + (γ-1) p₀ -/
@@ -263,6 +278,42 @@ theorem rh_core (σ : ℝ) (hσ : σ = 1 ∨ σ = -1) {p ρ u γ px m : ℝ} (hp
     · field_simp; ring
     · field_simp; ring
     · field_simp; ring
+
+/-! ### the fan in closed form -/
+
+/-- the sign `rho_p_u_rarefaction` derives from its `==` side detection: +1 on the left state -/
+def fanSgn (q : Prob) (p ρ u : ℝ) : ℝ := if p = q.pl ∧ u = q.ul ∧ ρ = q.rl then 1 else -1
+
+/-- the similarity variable of the fan, `y` in `rho_p_u_rarefaction` -/
+def fanY (q : Prob) (p ρ u γ xd0 x t : ℝ) : ℝ :=
+  2 / (γ + 1) + fanSgn q p ρ u * (γ - 1) / Real.sqrt (γ * p / ρ) / (γ + 1) * (u - (x - xd0) / t)
+
+theorem fanRho_eq (q : Prob) (p ρ u γ xd0 x t : ℝ) :
+    fanRho q p ρ u γ xd0 x t = ρ * fanY q p ρ u γ xd0 x t ^ (2 / (γ - 1)) := by
+  simp only [fanRho, toFan, fanY, fanSgn, epv_tree, epv_cond, epv_leaf]
+  by_cases h0 : p = q.pl <;> by_cases h1 : u = q.ul <;> by_cases h2 : ρ = q.rl <;> simp [h0, h1, h2]
+theorem fanP_eq (q : Prob) (p ρ u γ xd0 x t : ℝ) :
+    fanP q p ρ u γ xd0 x t = p * fanY q p ρ u γ xd0 x t ^ (2 * γ / (γ - 1)) := by
+  simp only [fanP, toFan, fanY, fanSgn, epv_tree, epv_cond, epv_leaf]
+  by_cases h0 : p = q.pl <;> by_cases h1 : u = q.ul <;> by_cases h2 : ρ = q.rl <;> simp [h0, h1, h2]
+theorem fanU_eq (q : Prob) (p ρ u γ xd0 x t : ℝ) :
+    fanU q p ρ u γ xd0 x t
+      = 2 * (fanSgn q p ρ u * Real.sqrt (γ * p / ρ) + (γ - 1) * u / 2 + (x - xd0) / t) / (γ + 1) := by
+  simp only [fanU, toFan, fanSgn, epv_tree, epv_cond, epv_leaf]
+  by_cases h0 : p = q.pl <;> by_cases h1 : u = q.ul <;> by_cases h2 : ρ = q.rl <;> simp [h0, h1, h2]
+
+theorem fanSgn_left (q : Prob) : fanSgn q q.pl q.rl q.ul = 1 := by simp [fanSgn]
+theorem fanSgn_right (q : Prob) (hd : q.Distinct) : fanSgn q q.pr q.rr q.ur = -1 := by
+  unfold Prob.Distinct at hd; simp [fanSgn, hd]
+theorem fanSgn_sq (q : Prob) (p ρ u : ℝ) : fanSgn q p ρ u = 1 ∨ fanSgn q p ρ u = -1 := by
+  unfold fanSgn; split_ifs <;> simp
+
+/-- `shock_velocity` in closed form; its sign is opposite to the fan's (-1 on the left state) -/
+theorem shockVel_eq (q : Prob) (px p ρ u γ : ℝ) :
+    shockVel q px p ρ u γ
+      = u + -fanSgn q p ρ u * Real.sqrt (γ * p / ρ) * Real.sqrt ((γ + 1) * px / 2 / γ / p + (γ - 1) / 2 / γ) := by
+  simp only [shockVel, toShockVel, fanSgn, epv_tree, epv_cond, epv_leaf]
+  by_cases h0 : p = q.pl <;> by_cases h1 : u = q.ul <;> by_cases h2 : ρ = q.rl <;> simp [h0, h1, h2]
 
 /-! ### the hand model `EPV.Model.RiemannIG` over ℝ
 
@@ -412,6 +463,71 @@ theorem vregs_RCR (q : Prob) (px : ℝ) :
       = [q.ul - sound q.pl q.rl q.gl, uxF q px - sound px (rhoRare px q.pl q.rl q.gl) q.gl, uxF q px,
          uxF q px + sound px (rhoRare px q.pr q.rr q.gr) q.gr, q.ur + sound q.pr q.rr q.gr] := by
   simp only [RiemannIG.vregs, ← ux_fan q px .RCR (Or.inr rfl), m_sound, RiemannIG.rx1, RiemannIG.rx2, m_rhoRare]; rfl
+
+/-! ### relating two runs of the assembly -/
+
+/-- two runs of the `reg_state` sequence whose boundary tests agree pairwise and whose installed
+states correspond under `f` end in the same region with corresponding states -/
+theorem assemble_rel (f : RiemannIG.State ℝ → RiemannIG.State ℝ) (x x' : ℝ) :
+    ∀ (Xs Xs' : List ℝ) (ss ss' : List (RiemannIG.State ℝ)) (i : ℕ) (cur : ℕ × RiemannIG.State ℝ),
+      List.Forall₂ (fun X X' => (X' ≤ x' ↔ X ≤ x)) Xs Xs' → List.Forall₂ (fun s s' => s' = f s) ss ss' →
+      RiemannIG.assemble x' Xs' ss' i (cur.1, f cur.2)
+        = ((RiemannIG.assemble x Xs ss i cur).1, f (RiemannIG.assemble x Xs ss i cur).2) := by
+  intro Xs Xs' ss ss' i cur hX
+  induction hX generalizing ss ss' i cur with
+  | nil => intro _; simp [RiemannIG.assemble]
+  | @cons X X' Xs Xs' hXX' _ ih =>
+    intro hs
+    cases hs with
+    | nil => simp [RiemannIG.assemble]
+    | @cons s s' ss ss' hss' hrest =>
+      subst hss'
+      simp only [RiemannIG.assemble, num_le]
+      by_cases h : X ≤ x
+      · have h' : X' ≤ x' := hXX'.mpr h
+        simp only [h, h', decide_true, if_true]
+        exact ih ss ss' (i + 1) (i + 1, s) hrest
+      · have h' : ¬ X' ≤ x' := fun hh => h (hXX'.mp hh)
+        simp only [h, h', decide_false, if_false]
+        exact ih ss ss' (i + 1) cur hrest
+
+theorem state_ext {s s' : RiemannIG.State ℝ} (hp : s.p = s'.p) (hr : s.r = s'.r) (hu : s.u = s'.u) (he : s.e = s'.e) :
+    s = s' := by
+  cases s; cases s'; simp_all
+
+/-- the fan entry of the `reg_state` sequence in terms of the generated fan model -/
+theorem fanState_eq (q : Prob) (p ρ u γ x xd0 t : ℝ) :
+    RiemannIG.fanState (toData q) p ρ u γ x xd0 t
+      = { p := fanP q p ρ u γ xd0 x t, r := fanRho q p ρ u γ xd0 x t, u := fanU q p ρ u γ xd0 x t,
+          e := sie (fanP q p ρ u γ xd0 x t) (fanRho q p ρ u γ xd0 x t) γ } :=
+  state_ext (m_fanP ..) (m_fanRho ..) (m_fanU ..) (m_fanE ..)
+
+/-! ### the classification chain on abstract thresholds -/
+
+/-- the driver's `if/elif` chain on abstract threshold values a = u_SCN, b = u_NCS, c = u_NCR,
+d = u_RCN, e = u_RCVR (all evaluated at `pr`) -/
+def chain (pl pr ur a b c d e : ℝ) : RiemannIG.Pattern :=
+  if (pl ≤ pr ∧ ur ≤ a) ∨ (pr < pl ∧ ur ≤ b) then .SCS
+  else if pl ≤ pr ∧ (a < ur ∧ ur ≤ c) then .SCR
+  else if pr < pl ∧ (b < ur ∧ ur ≤ d) then .RCS
+  else if (pl ≤ pr ∧ (c < ur ∧ ur ≤ e)) ∨ (pr < pl ∧ (d < ur ∧ ur ≤ e)) then .RCR
+  else if e < ur then .RCVCR else .none
+
+/-- the model's classification is the chain on the generated classification speeds -/
+theorem classify_eq (q : Prob) :
+    RiemannIG.classify (toData q)
+      = chain q.pl q.pr q.ur (uSCN q q.pr) (uNCS q q.pr) (uNCR q q.pr) (uRCN q q.pr) (uRCVR q q.pr) := by
+  have d5 : (toData q).pr = q.pr := rfl
+  have d1 : (toData q).pl = q.pl := rfl
+  have d7 : (toData q).ur = q.ur := rfl
+  simp only [RiemannIG.classify, chain, m_uSCN, m_uNCS, m_uNCR, m_uRCN, m_uRCVR, d1, d5, d7, num_le, num_lt,
+    Bool.or_eq_true, Bool.and_eq_true, decide_eq_true_eq]
+
+/-- mirror image of a wave pattern -/
+def mirrorPat : RiemannIG.Pattern → RiemannIG.Pattern
+  | .SCR => .RCS
+  | .RCS => .SCR
+  | p => p
 
 /-- the solver's answer at one point, over ℝ: pattern, region index, (p, ρ, u, e) -/
 def solve (q : Prob) (px xd0 x t : ℝ) : RiemannIG.Pattern × ℕ × RiemannIG.State ℝ :=
